@@ -60,14 +60,92 @@ def analyse(body):
     return found['locked']
 
 
+def names_in(n):
+    out = set()
+    for x in walk(n):
+        nm = member_name(x)
+        if nm:
+            out.add(nm)
+        if x.get('kind') in ('UnresolvedMemberExpr', 'UnresolvedLookupExpr') and x.get('name'):
+            out.add(x.get('name'))
+    return out
+
+
+def is_putback(s):
+    """a statement that contains  queueList.splice(queueList.begin(), tempList)"""
+    for x in walk(s):
+        if x.get('kind') in ('CallExpr', 'CXXMemberCallExpr'):
+            ks = kids(x)
+            if ks and member_name(ks[0]) == 'splice' and 'queueList' in names_in(ks[0]) and any('tempList' in names_in(a) for a in ks[1:]):
+                return True
+    return False
+
+
+def is_notify_if(s):
+    """if(doCanProcess()) { queueListConditionVariable.notify_one(); }   (no else)"""
+    if s.get('kind') != 'IfStmt':
+        return False
+    ks = kids(s)
+    if len(ks) != 2:
+        return False
+    cond, then = ks
+    c = strip(cond)
+    if c.get('kind') not in ('CallExpr', 'CXXMemberCallExpr') or 'doCanProcess' not in names_in(c) or len(kids(c)) != 1:
+        return False
+    body = kids(then) if then.get('kind') == 'CompoundStmt' else [then]
+    body = [b for b in body if b.get('kind') != 'NullStmt']
+    if len(body) != 1:
+        return False
+    nm = names_in(body[0])
+    return 'notify_one' in nm and 'queueListConditionVariable' in nm
+
+
+def putback_fact(trees, cls, fn):
+    """in `fn`: every block that puts tempList back at the front of queueList under the mutex is followed, after the
+    lock scope is closed, by `if(doCanProcess()) notify_one()`.  True / False; anything else is not translatable."""
+    from leaves.locks import class_functions
+    bodies = [b for nm, _, b in class_functions(trees, cls) if nm == fn]
+    if not bodies:
+        raise Untranslatable('%s::%s not found' % (cls, fn))
+    verdicts = []
+    for body in bodies:
+        for comp in find_all(body, 'CompoundStmt'):
+            st = [s for s in kids(comp) if s.get('kind') != 'NullStmt']
+            for i, s in enumerate(st):
+                # the innermost compound that holds the lock and the splice
+                if s.get('kind') == 'CompoundStmt' and is_putback(s) and any(is_qm_lock_decl(d) for d in kids(s)) \
+                        and not any(is_putback(c) for c in kids(s) if c.get('kind') == 'CompoundStmt'):
+                    rest = st[i + 1:]
+                    if not rest:
+                        verdicts.append(False)
+                    elif len(rest) == 1 and is_notify_if(rest[0]):
+                        verdicts.append(True)
+                    else:
+                        raise Untranslatable('%s::%s: statements after the put-back block are not the reviewed shape' % (cls, fn))
+    if not verdicts:
+        raise Untranslatable('%s::%s: no put-back block  { lock_guard(queueListMutex); queueList.splice(queueList.begin(), tempList); }' % (cls, fn))
+    if len(set(verdicts)) != 1:
+        raise Untranslatable('%s::%s: put-back blocks differ' % (cls, fn))
+    return verdicts[0]
+
+
 def leaf_queueconc(out):
     tu = '#include "eventpp/eventqueue.h"\n'
-    a = dtor_fact(clang_ast(tu, 'EventQueueBase'), 'EventQueueBase')
+    trees = clang_ast(tu, 'EventQueueBase')
+    a = dtor_fact(trees, 'EventQueueBase')
+    pi = putback_fact(trees, 'EventQueueBase', 'processIf')
+    pu = putback_fact(trees, 'EventQueueBase', 'processUntil')
+    ph = putback_fact(clang_ast('#include "eventpp/hetereventqueue.h"\n', 'HeterEventQueueBase'), 'HeterEventQueueBase', 'doProcessIf')
     out['GenQConc.v'] = '''(* GENERATED by tools/leafgen.py from eventqueue.h — do not edit *)
 (* ~DisableQueueNotify(): `--queueNotifyCounter` happens while queueListMutex is held
    (HeterEventQueue has no DisableQueueNotify) *)
 Definition dqn_dtor_decrement_under_mutex : bool := %s.
-''' % str(a).lower()
+(* processIf / processUntil / HeterEventQueue::doProcessIf: the block that puts the events the predicate refused back
+   at the front of queueList is followed by  if(doCanProcess()) queueListConditionVariable.notify_one();  *)
+Definition processif_putback_notifies : bool := %s.
+Definition processuntil_putback_notifies : bool := %s.
+Definition heter_processif_putback_notifies : bool := %s.
+''' % tuple(str(x).lower() for x in (a, pi, pu, ph))
 
 
 LEAVES = [('queueconc', leaf_queueconc)]
